@@ -75,14 +75,30 @@ def _closure_for(ctx: Ctx, m: FunctionInfo) -> List[FunctionInfo]:
     return list(m.nested.values())
 
 
+def family(ctx: Ctx, ci) -> list:  # type: ignore[no-untyped-def]
+    """ci and every class of the package deriving from it (a backend flavour added later is held to its parent's rules)."""
+    out = [ci]
+    changed = True
+    while changed:
+        changed = False
+        for c in sorted(ctx.prog.classes.values(), key=lambda x: x.qname):
+            if c not in out and any(b == o.qname or b.rsplit(".", 1)[-1] == o.name for b in c.base_names for o in out):
+                out.append(c)
+                changed = True
+    return out
+
+
 def r2(ctx: Ctx) -> None:
     ctx.rule("C20.R2", "not-found mapping: S3 read-type operations map NoSuchKey/404 to FileNotFoundError and re-raise everything "
              "else; exists() maps 404 to False only", 6)
-    s3 = ctx.prog.cls(SB + ".S3StorageBackend")
-    for name, code in (("read_file", "NoSuchKey"), ("open_file", "NoSuchKey"), ("read_file_with_etag", "NoSuchKey"),
-                       ("get_size", "404"), ("get_modified_time", "404")):
+    s3_base = ctx.prog.cls(SB + ".S3StorageBackend")
+    for s3, name, code in [(c, nm, cd) for c in family(ctx, s3_base) for nm, cd in (
+            ("read_file", "NoSuchKey"), ("open_file", "NoSuchKey"), ("read_file_with_etag", "NoSuchKey"), ("get_size", "404"),
+            ("get_modified_time", "404"))]:
         m = s3.methods.get(name)
         if m is None:
+            if s3 is not s3_base:
+                continue  # not overridden: inherits the checked implementation
             raise AnalysisError(f"S3StorageBackend.{name} vanished")
         ok = False
         detail = "no ClientError handler"
@@ -152,8 +168,7 @@ def _under_retry(ctx: Ctx, f: FunctionInfo, depth: int = 0, seen: Optional[Set[s
 def r3(ctx: Ctx) -> None:
     ctx.rule("C20.R3", "retry discipline: every boto call of the backend and the range reader (except the conditional PUT) runs in "
              "a closure passed to with_s3_retry; permanent errors re-raise before any sleep; attempts are bounded", 12)
-    for cname in ("S3StorageBackend", "S3RangeFile"):
-        ci = ctx.prog.cls(f"{SB}.{cname}")
+    for ci in [c2 for cname in ("S3StorageBackend", "S3RangeFile") for c2 in family(ctx, ctx.prog.cls(f"{SB}.{cname}"))]:
         for m in ci.methods.values():
             fns = [m] + list(m.nested.values())
             for f in fns:
@@ -251,8 +266,8 @@ def r3(ctx: Ctx) -> None:
 def r7(ctx: Ctx, rid: str = "C20.R7") -> None:
     ctx.rule(rid, "backends are stateless: no method other than __init__ stores to an instance attribute (no size / path / listing "
              "cache that a write through another method - or another process - can leave stale)", 2)
-    for cname in ("LocalStorageBackend", "S3StorageBackend"):
-        ci = ctx.prog.cls(f"{SB}.{cname}")
+    for ci in [c2 for cn in ("LocalStorageBackend", "S3StorageBackend") for c2 in family(ctx, ctx.prog.cls(f"{SB}.{cn}"))]:
+        cname = ci.name
         bad = []
         for m in ci.methods.values():
             if m.name == "__init__":
@@ -271,14 +286,14 @@ def r7(ctx: Ctx, rid: str = "C20.R7") -> None:
                             and isinstance(n.ast.func.value, ast.Attribute) and isinstance(n.ast.func.value.value, ast.Name) \
                             and n.ast.func.value.value.id == "self":
                         bad.append(f"{f.file}:{n.lineno} {n.text[:60]}")
-        ctx.ob(rid, ci.methods["__init__"], f"{cname} keeps no mutable per-instance state", None, not bad,
+        ctx.ob(rid, ci.methods.get("__init__") or next(iter(ci.methods.values())), f"{cname} keeps no mutable per-instance state", None, not bad,
                "results always reflect the store (the other backend has no cache either)", witness=bad[:6] or None, text=cname)
 
 
 def r4(ctx: Ctx) -> None:
     ctx.rule("C20.R4", "exists() falls back to a prefix listing only for keys ending in '/'", 1)
-    ex = ctx.prog.cls(SB + ".S3StorageBackend").methods["exists"]
-    for nf in ex.nested.values():
+    impls = [c.methods["exists"] for c in family(ctx, ctx.prog.cls(SB + ".S3StorageBackend")) if "exists" in c.methods]
+    for nf in [x for ex in impls for x in ([ex] + list(ex.nested.values()))]:
         g = ctx.cfg(nf)
         ls = ctx.calls(nf, prim="boto.list_objects_v2")
         brs = [b for b in g.nodes if b.kind == "branch" and "endswith('/')" in b.text]
